@@ -536,6 +536,16 @@ func genFR(w *bufio.Writer, thorough bool, r *Rng) {
 	}
 	reuseLines(w, r, k)
 	cumLines(w, r, 2*k)
+	// sources that deliver a prefix and then fail, with errors that wrap io.EOF / io.ErrUnexpectedEOF: never a clean end
+	for _, bf := range someFrames(r, 2*k, false) {
+		if bf.legacy || len(bf.frame) < 20 {
+			continue
+		}
+		for _, kk := range []int{1, 2, 3, 5} {
+			ops := []string{"wt:-1", fmt.Sprintf("r:%d r:%d r:9", bf.clen+10, bf.clen+10)}[r.Intn(2)]
+			fmt.Fprintf(w, "R %d %s %d %d%s 0 %s X:injected P:%s\n", r.Pick([]int{1, 1, 4}), bf.ref, r.Pick([]int{0, 7, 4096}), kk, []string{"^", "~", "^"}[r.Intn(3)], ops, bf.content)
+		}
+	}
 	// random call sequences over the whole Reader alphabet, on valid and damaged frames
 	ln := 300
 	if thorough {
@@ -678,6 +688,30 @@ func reuseLines(w *bufio.Writer, r *Rng, k int) {
 		{
 			cut := r.Pick([]int{1, 2, 3, 4})
 			fmt.Fprintf(w, "R 1 %s#%d 0 -1 0 r:%d r:%d r:9 R:%s A:conc=4 r:%d r:9 R:%s wt:-1\n", b, blobLen(b)-cut, blen+10, blen+10, a, alen+10, b)
+		}
+		// a stream read to its end by a concurrent Reader, then the next one (what the pipeline recorded at the end
+		// of the first must be gone); a frame that declares its size, then one that does not (Size)
+		{
+			szc := genContent(r.Pick([]int{0, 1, 5}), r.Intn(1000), 2150+r.Intn(70000))
+			szf := saveBlob("reusesz", realFrame(szc, wopts{bs: 65536, cc: 1, sz: len(szc), conc: 1}))
+			cc := r.Pick([]int{2, 4})
+			fmt.Fprintf(w, "R %d %s 0 -1 0 wt:-1 r:9 R:%s r:%d r:9 s R:%s wt:-1\n", cc, b, a, alen+10, b)
+			fmt.Fprintf(w, "R %d %s 0 -1 0 r:%d r:9 R:%s#%d r:%d r:9\n", cc, b, blen+10, a, blobLen(a)/2, alen+10)
+			fmt.Fprintf(w, "R %d %s 0 -1 0 s r:%d s R:%s s r:10 s r:%d s R:%s s\n", r.Pick([]int{1, 2}), szf, len(szc)+10, b, blen+10, szf)
+			fmt.Fprintf(w, "R 1 %s 0 -1 0 wt:-1 s R:%s s wt:-1 s\n", szf, b)
+		}
+		// the Reader delivered exactly S bytes; the next stream is a legacy frame whose first block is S bytes
+		// long (and cut short): the count kept for the legacy trailer must start from zero again
+		{
+			lc := genContent(r.Pick([]int{1, 3, 5}), r.Intn(1000), 3000+r.Intn(5000))
+			lf := realFrame(lc, wopts{bs: 4 << 20, leg: 1, conc: 1})
+			if len(lf) > 12 {
+				S := int(binary.LittleEndian.Uint32(lf[4:]))
+				first := realFrame(r.Bytes(S), wopts{bs: 65536, cc: 1, conc: 1})
+				lref, lcref := saveBlob("cumleg", lf), saveBlob("cumlegc", lc)
+				fmt.Fprintf(w, "R 1 %s 0 -1 0 r:%d r:9 R:%s#%d r:%d r:9 X:unexpEOF P:%s\n", saveBlob("cumfirst", first), S+10, lref, 8+S/2, len(lc)+10, lcref)
+				fmt.Fprintf(w, "R 1 %s 0 -1 0 wt:-1 R:%s wt:-1 E:%s\n", saveBlob("cumfirst", first), lref, lcref)
+			}
 		}
 		// WriteTo fails on its destination with blocks in flight, then the Reader is reused
 		fmt.Fprintf(w, "R %d %s 0 -1 0 wt:%d R:%s wt:-1 r:5\n", r.Pick([]int{2, 4, 8}), a, r.Intn(3), b)
